@@ -87,6 +87,15 @@ def gen_cases(rng, tier):
         for n in range(1, maxlen + 1):
             for h in itertools.product("wfcx", repeat=n):
                 cases.append({"kind": "life", "adapter": adapter, "hist": "".join(h)})
+    # histories with a REFUSED write ('e': a record the adapter cannot store - an integer beyond 64 bits for SQLite, text
+    # with a lone surrogate for the binary stream) after which the caller carries on: nothing else may be lost
+    for adapter in ("sqlite", "stream"):
+        if adapter not in ADAPTERS:
+            continue
+        for n in range(2, maxlen + 1):
+            for h in itertools.product("wfcxe", repeat=n):
+                if "e" in h and "w" in h:
+                    cases.append({"kind": "life", "adapter": adapter, "hist": "".join(h)})
     # ---- split matrix
     r = rng.fork("split")
     limits = [1, 2, 3, 5] if tier != "thorough" else [1, 2, 3, 4, 5, 7]
@@ -282,6 +291,15 @@ def _apply_ops(w, hist, mk):
             if op == "w":
                 rec = mk(i)
                 i += 1
+                w.write(rec)
+            elif op == "e":
+                rec = mk(i)
+                i += 1
+                # a value this adapter refuses: beyond SQLite's 64-bit integers / not encodable as UTF-8
+                if hasattr(w, "con"):
+                    rec.n = 2 ** 70
+                else:
+                    rec.s = "\ud800"
                 w.write(rec)
             elif op == "f":
                 w.flush()
@@ -499,6 +517,10 @@ def _oracle_life(case, obs):
             elif opened:
                 return f"write #{i} on an open {case['adapter']} writer raised ({out})"
             i += 1
+        elif op == "e":
+            if out == "ok":
+                return f"write #{i} of a record the {case['adapter']} adapter cannot store returned normally"
+            i += 1
         elif op in "cx":
             if opened and out != "ok":
                 return f"{'close' if op == 'c' else 'with-exit'} of an open {case['adapter']} writer raised ({out})"
@@ -627,6 +649,8 @@ def oracle(case, obs):
 def model_op(case, obs):
     k = case["kind"]
     if k == "life":
+        if "e" in case["hist"]:
+            return None      # refused writes: covered by the real-code oracle (C18 models them for SQLite)
         hist = case["hist"] + ("c" if obs["cleanup_close"] else "")
         return {"op": "c17.life", "adapter": ADAPTERS[case["adapter"]][1], "hist": hist}
     if k == "split":
